@@ -2,7 +2,7 @@
    [build_checked] is the model of spox.build (coq/Build.v build_public) followed by the model's own validators;
    the per-run correspondence shows that the real build returns exactly [build_checked]'s model (names included). *)
 From Coq Require Import List String NArith Arith Bool.
-From Spox Require Import Base IR Show Build Validate BuildFacts ScopeFacts.
+From Spox Require Import Base IR Show Build Validate BuildFacts ScopeFacts EmitFacts SsaFacts.
 Import ListNotations.
 
 (* A model is returned only after the final structural check (per-graph SSA without shadowing, definition before use
@@ -64,3 +64,19 @@ Theorem C02_reserved_names_never_name_a_var :
     build_main ffuel p un main = inl b -> vlook (b_scope b) v = inl n -> ~ In n (reserved (b_scope b)).
 Proof. exact reserved_names_never_name_a_var. Qed.
 Print Assumptions C02_reserved_names_never_name_a_var.
+
+(* Top-level SSA by construction (no validator): in the GraphProto compiled for any scope - any fuel, nesting, operator mix - no
+   output name of a top-level node occurs twice, because the names are the table entries of distinct Vars.  (Internals of inlined
+   blocks and nesting across graphs: C02_value_names_globally_unique, by validator.) *)
+Theorem C02_top_level_ssa_by_construction :
+  forall p un args_of own_of fbuild fuel s g prefix vi ai ms ro s' rq fs,
+    compile p un args_of own_of fbuild fuel s g prefix vi = inl (MGraph ai ms ro, s', rq, fs) -> ScopeInv s -> NoDup (own_of g) ->
+    NoDup (tops ms).
+Proof. exact compile_top_ssa. Qed.
+Print Assumptions C02_top_level_ssa_by_construction.
+
+Theorem C02_build_main_top_level_ssa :
+  forall vi ffuel p un main b, build_main_gen vi ffuel p un main = inl b -> NoDup (topo_of p main) ->
+  match b_graph b with MGraph _ ms _ => NoDup (tops ms) end.
+Proof. exact build_main_top_ssa. Qed.
+Print Assumptions C02_build_main_top_level_ssa.
